@@ -21,8 +21,10 @@ type Obligation struct {
 	Pos    string
 	Assume []*Term
 	Goal   *Term
-	Cover  bool // must be SAT (vacuity check)
+	Cover  bool   // must be SAT (vacuity check)
 	Raw    string // complete SMT-LIB text (ground obligations built outside the term IR)
+	VCtx   *VC    // verification run (for counterexample replay)
+	Clause *SExpr // contract clause this obligation comes from (postconditions)
 	// result
 	Status  string // unsat / sat / unknown / timeout / error
 	Solver  string
@@ -49,56 +51,58 @@ type Program struct {
 	Axioms []NamedExpr
 	AxPkg  map[string]string
 	// bookkeeping for evidence
-	Assumed      map[string]bool // assumed (trusted / stdlib) contracts used
-	Uncontracted map[string]bool
-	Inlined      map[string]bool
-	Abstracted   map[string]bool
-	footprints   map[*FuncInfo]*footprintT
-	MutableGlobals map[*types.Var]bool
-	WrittenMaps map[*types.Var]bool
+	Assumed          map[string]bool // assumed (trusted / stdlib) contracts used
+	Uncontracted     map[string]bool
+	Inlined          map[string]bool
+	Abstracted       map[string]bool
+	footprints       map[*FuncInfo]*footprintT
+	MutableGlobals   map[*types.Var]bool
+	WrittenMaps      map[*types.Var]bool
 	AddrTakenGlobals map[*types.Var]bool
-	GlobalInit     map[*types.Var]ast.Expr
-	GlobalInfo     map[*types.Var]*packages.Package
+	GlobalInit       map[*types.Var]ast.Expr
+	GlobalInfo       map[*types.Var]*packages.Package
 }
 
 type VC struct {
-	prog      *Program
-	fn        *FuncInfo
-	info      *types.Info
-	obls      []*Obligation
-	heap0     map[string]*Term
-	heapSorts map[string]*Sort
-	runTag    string
-	entry     *State // entry state (for old())
-	boxed     map[types.Object]bool
-	frames    []*Frame
-	siteOrd   map[ast.Node]string // node -> ordinal string per kind
-	siteOrd2  map[ast.Node]string // statements
-	loopPath  map[ast.Stmt]string
-	errs      []string
+	prog        *Program
+	fn          *FuncInfo
+	info        *types.Info
+	obls        []*Obligation
+	heap0       map[string]*Term
+	heapSorts   map[string]*Sort
+	runTag      string
+	entry       *State // entry state (for old())
+	boxed       map[types.Object]bool
+	frames      []*Frame
+	siteOrd     map[ast.Node]string // node -> ordinal string per kind
+	siteOrd2    map[ast.Node]string // statements
+	loopPath    map[ast.Stmt]string
+	errs        []string
 	inlineDepth int
-	closures  map[types.Object]*ast.FuncLit
-	mode      string // "int" or "bv"
-	quiet     bool   // suppress obligations (used when executing spec-level inlined pure calls)
-	prefix    string // obligation name prefix for inlined callee sites
-	curPos    token.Pos
-	epochCtr  int
-	topPanics []*State
-	analyzed  map[ast.Node]bool
-	noKF      bool
-	goCount   int
-	workerMode bool
-	lastRecv  *Term
-	gaddrSeen map[string]bool
-	usedSites map[string]bool
+	closures    map[types.Object]*ast.FuncLit
+	mode        string // "int" or "bv"
+	quiet       bool   // suppress obligations (used when executing spec-level inlined pure calls)
+	prefix      string // obligation name prefix for inlined callee sites
+	curPos      token.Pos
+	epochCtr    int
+	topPanics   []*State
+	analyzed    map[ast.Node]bool
+	noKF        bool
+	paramVals   map[*types.Var]*Term
+	curClause   *SExpr
+	goCount     int
+	workerMode  bool
+	lastRecv    *Term
+	gaddrSeen   map[string]bool
+	usedSites   map[string]bool
 	heapGoTypes map[string]types.Type
 	mapValArr   map[string]bool
 	epochAlloc  map[string]*Term
 	bgFacts     []*Term // facts about lazily created heap versions (true in every state of this run)
-	topMods   modSet
-	modAll    bool
-	curStmt   ast.Stmt
-	ghostTypes map[string]types.Type
+	topMods     modSet
+	modAll      bool
+	curStmt     ast.Stmt
+	ghostTypes  map[string]types.Type
 }
 
 type jumpTarget struct {
@@ -109,19 +113,19 @@ type jumpTarget struct {
 }
 
 type Frame struct {
-	fn       *FuncInfo
-	sig      *types.Signature
-	info     *types.Info
-	rets     []*State
-	panics   []*State
-	targets  []*jumpTarget
-	results  []*types.Var // named results
-	defers   []*ast.DeferStmt
-	isLit    bool
-	recoverV *Term // value returned by recover() while running deferred handlers
+	fn                       *FuncInfo
+	sig                      *types.Signature
+	info                     *types.Info
+	rets                     []*State
+	panics                   []*State
+	targets                  []*jumpTarget
+	results                  []*types.Var // named results
+	defers                   []*ast.DeferStmt
+	isLit                    bool
+	recoverV                 *Term // value returned by recover() while running deferred handlers
 	recovered, runningDefers bool
-	gotos    map[string][]*State
-	pkg      *packages.Package
+	gotos                    map[string][]*State
+	pkg                      *packages.Package
 }
 
 func (vc *VC) frame() *Frame { return vc.frames[len(vc.frames)-1] }
@@ -178,7 +182,7 @@ func (vc *VC) oblige(s *State, kind, site, desc string, pos token.Pos, goal *Ter
 		name += ":" + vc.prefix + site
 	}
 	name = shortKey(name)
-	o := &Obligation{Name: name, Kind: kind, Func: shortKey(vc.fn.Key), Desc: desc, Pos: vc.posStr(pos), Assume: s.pc.facts(), Goal: goal}
+	o := &Obligation{Name: name, Kind: kind, Func: shortKey(vc.fn.Key), Desc: desc, Pos: vc.posStr(pos), Assume: s.pc.facts(), Goal: goal, VCtx: vc, Clause: vc.curClause}
 	vc.obls = append(vc.obls, o)
 	s.assume(goal)
 }
